@@ -21,6 +21,14 @@ Theorem C04_generated_config_action_is_model : forall includepath i d o adds,
 Proof. exact gen_config_action_declare. Qed.
 Print Assumptions C04_generated_config_action_is_model.
 
+(* histories: several commits on ONE ActionState / Configurator.  The function regenerated from the source has no
+   parameter besides the pending actions (resolver state and generator are created inside it), so the k-th commit of a
+   history is the commit of the k-th round alone, whatever was committed before *)
+Theorem C04_history_independent : forall cfg rounds,
+  map (fun acts => gen_execute_actions cfg (S (forest_size acts)) acts) rounds = commit_history cfg rounds.
+Proof. exact gen_history_independent. Qed.
+Print Assumptions C04_history_independent.
+
 (* the property's first sentence, restated about the generated function *)
 Theorem C04_generated_commit_spec : forall acts,
   flat acts = true -> wf_ids acts = true -> wf_orders acts = true ->
